@@ -1,6 +1,6 @@
 (* C17 — property theorems only.  Proofs are one `exact`; statements are pinned by ./check. *)
 From Coq Require Import List ZArith Bool.
-From RD Require Import C17.Model C17.Proofs.
+From RD Require Import C17.Model C17.Proofs C17.Boot.
 Import ListNotations.
 Open Scope Z_scope.
 
@@ -29,6 +29,18 @@ Theorem C17_liveness : forall cfg e,
   filter (targets e) (handle_message cfg m) = filter (targets e) (handle_message (nosec cfg) m).
 Proof. exact liveness_unprotected. Qed.
 Print Assumptions C17_liveness.
+
+(* ... and the bootstrap readers keep receiving under RTPS protection too: for an exempt reader
+   (SPDP, ParticipantStatelessMessage, ParticipantVolatileMessageSecure) that needs neither submessage
+   nor payload protection, the writer-submessage events of any plaintext message are exactly those
+   without security plugins, whether or not the domain is RTPS-protected. *)
+Theorem C17_liveness_bootstrap : forall cfg e,
+  c_plugins cfg = true ->
+  mem e (c_sub_np cfg) = true -> mem e (c_pay_np cfg) = true -> exempt_reader e = true ->
+  forall m, forallb plain_sub (m_subs m) = true ->
+  filter (wt e) (handle_message cfg m) = filter (wt e) (handle_message (nosec cfg) m).
+Proof. exact liveness_bootstrap. Qed.
+Print Assumptions C17_liveness_bootstrap.
 
 Theorem C17_model_ok : forall c, ok c (run c) = true.
 Proof. exact run_ok. Qed.
